@@ -455,7 +455,7 @@ def battery_private(ctx, agg, rng, k, want, kcls, budget):
                 agg.bad("privkey-export-scalar-width", {"class": cls, "key": want["name"], "d_len": ind.get("d_len")})
             else:
                 agg.ok("private", what + "-decoded", *cls)
-        use = entries if budget is None else rng.sample(entries, 3)
+        use = entries if want["type"] == "ecc" else rng.sample(entries, 3)
         for entry in use:
             if entry == "PlainFileSP" and pw and any(ch in pw for ch in "$~"):
                 continue
@@ -1111,6 +1111,18 @@ def battery_witness(ctx, agg, rng):
     for curve, (lr, ls) in (("p256", (29, 30)), ("p384", (45, 46)), ("p521", (63, 63))):
         ctx.count("sig_convert")
         judge_conversion(agg, curve, _det_value(curve + "r", lr), _det_value(curve + "s", ls), "witness-der-length-raw-plus-one")
+    # a configuration-string file provider asked for RSA-PSS (what AHAB signing and `nxpcrypto signature create -sp ... -pp` do)
+    want = want_of_pool("rsa2048_0")
+    prov = S().sp.get_signature_provider(sp_cfg="type=file;file_path=" + pki.path("rsa2048_0", "priv", "pem"), pss_padding=True)
+    data = b"vf c08 witness message"
+    sig = prov.get_signature(data)
+    if _pss_dropped(want, data, sig, "sha256"):
+        agg.bad(K_SP_DROPS_PSS, {"class": ["witness", "sp_cfg", "pss"], "key": "rsa2048_0",
+                                 "call": "get_signature_provider(sp_cfg='type=file;file_path=<rsa2048_0.pem>', pss_padding=True).get_signature(data)",
+                                 "observed": "valid PKCS#1 v1.5 signature, not PSS", "data": data, "sig": sig})
+    else:
+        judge_signature(ctx, agg, rng, build_private(want).get_public_key(), want, "pool-rsa2048", build_private(want_of_pool("rsa2048_1")).get_public_key(),
+                        sig, data, "sha256", "pss", False, "witness get_signature/sp_cfg")
     other = build_private(want_of_pool("p256_0")).get_public_key()
     lr, ls = WITNESS_DER_LEN["p256"]
     battery_recovered(ctx, agg, rng, "p256", lr, ls, other, pick_value=lambda w, n, a: _det_value("p256v" + w, n, a),
